@@ -150,7 +150,7 @@ impl Prop for C02 {
 
     fn gen(&self, rng: &mut Rng, n: usize, tier: Tier, out: &mut Vec<String>) {
         let fams = families();
-        let huge_every = if tier == Tier::Thorough { 40 } else { (n / 6).max(1) };
+        let huge_every = if tier == Tier::Thorough { (n / 25).max(1) } else { (n / 6).max(1) };
         for case in 0..n {
             out.push("reset".to_string());
             // (i) mutated encodings
@@ -188,6 +188,21 @@ impl Prop for C02 {
                     lim.max_msg = *rng.pick(&[1usize, 12, 64, 8192, 65535]);
                 }
                 out.push(format!("dec {} {} x{}", ty, lim.show(), hex(&b)));
+            }
+            // (ii') a generated service structure: valid bytes, mutated, under drawn limits
+            {
+                let names = dispatch::SCHEMAS;
+                let name = names[(case * 7 + 3) % names.len()].0;
+                let bytes = {
+                    let mut g = Gen::new(rng);
+                    g.lens = vec![0, 1, 2, 3, 5];
+                    g.struct_bytes(name, true).0
+                };
+                if bytes.len() <= 3000 {
+                    let lim = limits(rng);
+                    let m = if rng.chance(1, 4) { bytes } else { mutate(rng, &bytes) };
+                    out.push(format!("sdec {} {} x{}", name, lim.show(), hex(&m)));
+                }
             }
             // (iii) nesting families
             {
@@ -234,6 +249,21 @@ impl Runner for R {
     fn step(&mut self, toks: &[&str]) -> (String, Verdict) {
         match toks {
             ["reset", ..] => ("ok".to_string(), Verdict::Ok),
+            ["sdec", name, opts, h] => {
+                let (lim, bytes) = match (Lim::parse(opts), unhex(h)) {
+                    (Some(l), Some(b)) => (l, b),
+                    _ => return ("bad-op".to_string(), Verdict::Ok),
+                };
+                let (r, peak) = metered(|| run_sdec(name, &lim, &bytes));
+                // an array of structures: `Vec::with_capacity(len)` of the structure's size
+                let bound = lim.max_str.max(lim.max_bytes).max(lim.max_arr.saturating_mul(4096)).max(bytes.len() * 4) + SLACK;
+                let v = if peak > bound {
+                    Verdict::fail("alloc_bounded", name, format!("requested {} bytes > {} under {:?}", peak, bound, lim))
+                } else {
+                    Verdict::Ok
+                };
+                (r.0, v)
+            }
             ["dec", ty, opts, h] => {
                 let (lim, bytes) = match (Lim::parse(opts), unhex(h)) {
                     (Some(l), Some(b)) => (l, b),
